@@ -442,6 +442,7 @@ class Emit:
     def __init__(self, impl, sigs, consts):
         self.impl, self.sigs, self.consts = impl, sigs, consts
         self.n = 0
+        self.deps = set()
 
     def fresh(self, base="v"):
         self.n += 1
@@ -514,7 +515,7 @@ class Emit:
         if kk == "p":
             return ("p", f(t), rty)
         v = self.fresh()
-        return ("m", f"({t} >>= fun {v} => R.ok {f(v)})", rty)
+        return ("m", f"(R.bind ({t}) fun {v} => R.ok {f(v)})", rty)
 
     def bind_all(self, parts, build, rty, impure_result=False):
         """parts: list of (kind, term, ty); build(list of pure terms) -> term (pure, or R if impure_result)."""
@@ -531,7 +532,7 @@ class Emit:
             return ("p", body, rty)
         term = body if impure_result else f"R.ok {body}"
         for t, v in reversed(wraps):
-            term = f"({t} >>= fun {v} => {term})"
+            term = f"(R.bind ({t}) fun {v} => {term})"
         return ("m", term, rty)
 
     def binop(self, e, env, expect):
@@ -540,18 +541,21 @@ class Emit:
             lp = self.ex(l, env, expect)
             lty = lp[2]
             if r[0] == "num":
+                if r[1] >= WIDTH[lty.kind]:
+                    raise ValueError("literal shift amount not below the width")
                 amt = ("p", str(r[1]), Ty("u8"))
-                amt_term = lambda x: x
-            else:
-                amt = self.ex(r, env)
-                amt_term = lambda x: f"({x}).toNat"
-            if op == "<<":
-                f = lambda xs: f"({xs[0]} <<< {amt_term(xs[1])})"
-            elif lty.kind.startswith("i"):
-                f = lambda xs: f"(({xs[0]}).sshiftRight {amt_term(xs[1])})"
-            else:
-                f = lambda xs: f"({xs[0]} >>> {amt_term(xs[1])})"
-            return self.bind_all([lp, amt], f, lty)
+                if op == "<<":
+                    f = lambda xs: f"({xs[0]} <<< {xs[1]})"
+                elif lty.kind.startswith("i"):
+                    f = lambda xs: f"(({xs[0]}).sshiftRight {xs[1]})"
+                else:
+                    f = lambda xs: f"({xs[0]} >>> {xs[1]})"
+                return self.bind_all([lp, amt], f, lty)
+            amt = self.ex(r, env)
+            if lty.kind.startswith("i"):
+                raise ValueError("signed shift by a non-literal amount not in the subset")
+            fn = "Rust.shl" if op == "<<" else "Rust.shr"
+            return self.bind_all([lp, amt], lambda xs: f"({fn} cfg {xs[0]} {xs[1]})", lty, impure_result=True)
         # operand types: infer the non-literal side first
         if l[0] == "num" and not l[2]:
             rp = self.ex(r, env, expect)
@@ -613,6 +617,7 @@ class Emit:
         for p, t in zip(parts, ptys):
             if p[2] != t:
                 raise ValueError(f"argument type {p[2]} for parameter {t} of {name}")
+        self.deps.add(key)
         return self.bind_all(parts, lambda xs: f"({lname(owner, name)} cfg " + " ".join(xs) + ")", rty, impure_result=True)
 
     def mcall(self, e, env, expect):
@@ -637,13 +642,14 @@ class Emit:
             if ty.kind != "option":
                 raise ValueError("unwrap on non-Option")
             v = self.fresh()
-            return self.bind_all([rp], lambda xs: f"(match {xs[0]} with | some {v} => R.ok {v} | none => R.panic)", ty.arg, impure_result=True)
+            return self.bind_all([rp], lambda xs: f"(Rust.unwrap {xs[0]})", ty.arg, impure_result=True)
         if (self.impl, name) in self.sigs:
             ptys, rty = self.sigs[(self.impl, name)]
             parts = [rp] + [self.ex(a, env, t) for a, t in zip(args, ptys[1:])]
             for p, t in zip(parts, ptys):
                 if p[2] != t:
                     raise ValueError(f"argument type {p[2]} for parameter {t} of {name}")
+            self.deps.add((self.impl, name))
             return self.bind_all(parts, lambda xs: f"({lname(self.impl, name)} cfg " + " ".join(xs) + ")", rty, impure_result=True)
         raise ValueError(f"method {name} not in the subset")
 
@@ -671,11 +677,11 @@ class Emit:
                 self.n += 1
                 if ty.kind == "option" and rty.kind == "option":
                     env2 = dict(env); env2[name] = (v, ty.arg)
-                    inner = f"match {{0}} with\n  | none => R.ok none\n  | some {v} => {cont(env2)}"
+                    inner = f"Rust.onOpt {{0}} (fun {v} =>\n  {cont(env2)}) (R.ok none)"
                     if kk == "p":
                         return "(" + inner.format(t) + ")"
                     w = self.fresh()
-                    return f"({t} >>= fun {w} => " + inner.format(w) + ")"
+                    return f"(R.bind ({t}) fun {w} => " + inner.format(w) + ")"
                 raise ValueError("`?` outside Option-returning function")
             kk, t, ty = self.ex(e, env)
             v = name + "_" + str(self.n + 1)
@@ -683,7 +689,7 @@ class Emit:
             env2 = dict(env); env2[name] = (v, ty)
             if kk == "p":
                 return f"(let {v} := {t}\n  {cont(env2)})"
-            return f"({t} >>= fun {v} =>\n  {cont(env2)})"
+            return f"(R.bind ({t}) fun {v} =>\n  {cont(env2)})"
         if k == "opassign":
             _, lhs, op, rhs = s
             if lhs[0] != "path" or len(lhs[1]) != 1:
@@ -695,12 +701,12 @@ class Emit:
             env2 = dict(env); env2[name] = (v, ty)
             if kk == "p":
                 return f"(let {v} := {t}\n  {cont(env2)})"
-            return f"({t} >>= fun {v} =>\n  {cont(env2)})"
+            return f"(R.bind ({t}) fun {v} =>\n  {cont(env2)})"
         if k == "assert":
             kk, t, ty = self.ex(s[1], env)
             if kk != "p":
                 v = self.fresh()
-                return f"({t} >>= fun {v} => if {v} then {cont(env)} else R.panic)"
+                return f"(R.bind ({t}) fun {v} => if {v} then {cont(env)} else R.panic)"
             return f"(if {t} then {cont(env)} else R.panic)"
         if k == "return":
             return self.ret(s[1], env, rty)
@@ -729,7 +735,7 @@ class Emit:
                 v = name + "_" + str(self.n + 1)
                 self.n += 1
                 env2 = dict(env); env2[name] = (v, ty)
-                return f"(Rust.setBits {cur} {lo} {hi} {t} >>= fun {v} =>\n  {cont(env2)})"
+                return f"(R.bind (Rust.setBits {cur} {lo} {hi} {t}) fun {v} =>\n  {cont(env2)})"
             if e[0] in ("if", "iflet", "match", "block"):
                 return self.control(e, env, rty, cont, value=False)
             raise ValueError(f"expression statement {e[0]} not in the subset")
@@ -756,7 +762,7 @@ class Emit:
             if kk == "p":
                 return f"(if {c} then {a} else {b})"
             v = self.fresh()
-            return f"({c} >>= fun {v} => if {v} then {a} else {b})"
+            return f"(R.bind ({c}) fun {v} => if {v} then {a} else {b})"
         if k == "iflet":
             _, pat, scrut, a, b = e
             kk, t, ty = self.ex(scrut, env)
@@ -767,11 +773,11 @@ class Emit:
             env2 = dict(env); env2[pat[2]] = (v, ty.arg)
             ta = self.block(a, env2, rty, rest)
             tb = self.block(b, dict(env), rty, rest)
-            body = "match {0} with\n  | some " + v + " => " + ta + "\n  | none => " + tb
+            body = "Rust.onOpt {0} (fun " + v + " =>\n  " + ta + ")\n  " + tb
             if kk == "p":
                 return "(" + body.format(t) + ")"
             w = self.fresh()
-            return f"({t} >>= fun {w} => " + body.format(w) + ")"
+            return f"(R.bind ({t}) fun {w} => " + body.format(w) + ")"
         if k == "match":
             _, scrut, arms = e
             kk, t, ty = self.ex(scrut, env)
@@ -791,28 +797,36 @@ class Emit:
                 for litv, body in reversed(out):
                     term = f"(if {sv} == {litv} then {body}\n  else {term})"
             elif ty.kind in ("option", "result"):
-                alts = []
+                yes, no = None, None
                 for pat, body in arms:
-                    if pat[0] != "pctor":
+                    if pat[0] == "pwild":
+                        if no is None:
+                            no = self.block(body, dict(env), rty, rest)
+                        continue
+                    if pat[0] != "pctor" or pat[1] not in ("Some", "None", "Ok", "Err"):
                         raise ValueError("match pattern not in the subset")
-                    ctor = {"Some": "some", "None": "none", "Ok": "Except.ok", "Err": "Except.error"}[pat[1]]
                     env2 = dict(env)
-                    binder = ""
-                    if pat[2] is not None:
-                        if pat[2] == "_":
-                            binder = " _"
-                        else:
-                            v = pat[2] + "_" + str(self.n + 1)
+                    if pat[1] in ("Some", "Ok"):
+                        if yes is not None:
+                            continue
+                        binder = "_"
+                        if pat[2] is not None and pat[2] != "_":
+                            binder = pat[2] + "_" + str(self.n + 1)
                             self.n += 1
-                            env2[pat[2]] = (v, ty.arg)
-                            binder = " " + v
-                    alts.append(f"  | {ctor}{binder} => {self.block(body, env2, rty, rest)}")
-                term = f"(match {sv} with\n" + "\n".join(alts) + ")"
+                            env2[pat[2]] = (binder, ty.arg)
+                        yes = f"(fun {binder} =>\n  {self.block(body, env2, rty, rest)})"
+                    else:
+                        if no is None:
+                            no = self.block(body, env2, rty, rest)
+                if yes is None or no is None:
+                    raise ValueError("match on Option/Result needs both alternatives")
+                comb = "Rust.onOpt" if ty.kind == "option" else "Rust.onRes"
+                term = f"({comb} {sv} {yes}\n  {no})"
             else:
                 raise ValueError(f"match on {ty}")
             if kk == "p":
                 return f"(let {sv} := {t}\n  {term})"
-            return f"({t} >>= fun {sv} =>\n  {term})"
+            return f"(R.bind ({t}) fun {sv} =>\n  {term})"
         raise ValueError(k)
 
 
@@ -851,7 +865,8 @@ def generate(repo, outdir):
     consts["ENTRY_COUNT"] = (hex(int(m.group(1).replace("_", ""), 0)) + "#64", Ty("usize"))
     lines = ["/-", "GENERATED by translator/gen_fns.py from the Rust source of /repo — do not edit. Rewritten on every run.",
              "One definition per translated function, over the fixed-width semantics of `X86Model/Base/Rust.lean`.", "-/",
-             "import X86Model.Base.Rust", "", "namespace X86.Generated.Src", "open X86", ""]
+             "import X86Model.Base.Rust", "", "set_option linter.unusedVariables false", "", "namespace X86.Generated.Src", "open X86", ""]
+    defs = {}
     for f, impl, fn, ps, rty, body in parsed:
         em = Emit(impl, sigs, consts)
         env = {}
@@ -861,10 +876,27 @@ def generate(repo, outdir):
             binders.append(f"({name}_0 : {ty.lean()})")
         stmts = P(tokenize(body)).block()
         term = em.block(stmts, env, rty, None)
-        lines.append(f"/-- `{(impl + '::') if impl else ''}{fn}` ({f}) -/")
-        lines.append(f"def {lname(impl, fn)} (cfg : Cfg) " + " ".join(binders) + f" : R ({rty.lean()}) :=")
-        lines.append("  " + term)
-        lines.append("")
+        text = [f"/-- `{(impl + '::') if impl else ''}{fn}` ({f}) -/",
+                f"def {lname(impl, fn)} (cfg : Cfg) " + " ".join(binders) + f" : R ({rty.lean()}) :=",
+                "  " + term, ""]
+        defs[(impl, fn)] = (text, em.deps)
+    # callees first (the source has no recursion among the translated functions; a cycle raises)
+    done, order = set(), []
+
+    def visit(key, stack):
+        if key in done:
+            return
+        if key in stack:
+            raise ValueError(f"recursion among translated functions at {key}")
+        for d in sorted(defs[key][1], key=str):
+            visit(d, stack + [key])
+        done.add(key)
+        order.append(key)
+
+    for f, impl, fn, *_ in parsed:
+        visit((impl, fn), [])
+    for key in order:
+        lines += defs[key][0]
     lines += ["end X86.Generated.Src", ""]
     path = os.path.join(outdir, "SrcFns.lean")
     write_if_changed(path, "\n".join(lines))
